@@ -78,7 +78,7 @@ func genMatrix(i int, rng *rand.Rand) matrixCfg {
 	protos := []string{"tcp", "websocket", "quic", "kcp"}
 	var m matrixCfg
 	round := i / (len(tpl) * len(protos))
-	if round >= 2 && rng.Intn(2) == 0 {
+	if round >= 1 && rng.Intn(2) == 0 {
 		// free combination
 		m.SrvMode = []string{"none", "force", "ca"}[rng.Intn(3)]
 		m.SrvCert = []string{"random", "good", "othername", "otherca"}[rng.Intn(4)]
@@ -146,6 +146,13 @@ func matrixCase(c *h.Case, i int) {
 		}
 		replied = accepted
 		detail = "real frpc"
+		if accepted {
+			// frpc dereferences a nil control when it is cancelled in the instant between a successful
+			// login and the start of its keep-alive goroutine (client/service.go keepControllerWorking;
+			// a robustness defect outside this property): let the client settle before stopping it
+			_ = cli.WaitRunning(20*time.Second, user+".p")
+			time.Sleep(300 * time.Millisecond)
+		}
 		cli.Close()
 		run.Count("matrix_real_frpc", 1)
 	} else {
